@@ -45,6 +45,7 @@ const (
 	c18Recovery
 	c18RetryWait
 	c18Stuck
+	c18HandOver // sendChunk's select { ackerChan <- chunk | inputClosed | ackerEnded } with a full ackerChan
 )
 
 // upstream states
@@ -59,7 +60,7 @@ const (
 )
 
 var c18UpNames = []string{"healthy", "silent", "not-reading", "resetting", "refusing", "blackhole", "reset-then-not-reading"}
-var c18PhaseNames = []string{"idle", "wait-ack", "sending", "sending-late", "connecting", "connecting-late", "recovery", "retry-wait", "stuck-consumer"}
+var c18PhaseNames = []string{"idle", "wait-ack", "sending", "sending-late", "connecting", "connecting-late", "recovery", "retry-wait", "stuck-consumer", "hand-over"}
 
 type c18Scenario struct {
 	Name       string
@@ -69,6 +70,8 @@ type c18Scenario struct {
 	ManyChunks bool // many small chunks: the output channel fills up ("full window")
 	NoDir      bool
 	SettleMs   int // time to let the agent reach the phase after the trigger
+	AckWindow  int // defs.ForwarderMaxPendingChunksForAck (0 = large)
+	TAckMs     int // ACK timeout of this scenario (0 = default)
 }
 
 var c18Scenarios = []c18Scenario{
@@ -83,6 +86,12 @@ var c18Scenarios = []c18Scenario{
 	{Name: "recovery/reset-then-not-reading", Phase: c18Recovery, Up: upResetThenNotReading, BigLoad: true, SettleMs: 300},
 	{Name: "idle/silent-no-data", Phase: c18Idle, Up: upSilent, SettleMs: 50},
 	{Name: "stuck-consumer", Phase: c18Stuck, Up: upHealthy, SettleMs: 50},
+	// ACK window full: the upstream reads everything and never answers; AckWindow chunks wait in ackerChan, one more is
+	// with the acknowledger, the next one has been written and the sender sits in the hand-over select of sendChunk.
+	// (a) the stop arrives in that state; (b) the ACK timeout ends the acknowledger first (ackerEnded branch), the stop
+	// comes during the retry wait that follows
+	{Name: "hand-over/silent", Phase: c18HandOver, Up: upSilent, ManyChunks: true, AckWindow: 2, SettleMs: 200},
+	{Name: "hand-over/silent-ack-timeout", Phase: c18RetryWait, Up: upSilent, ManyChunks: true, AckWindow: 2, TAckMs: 250, SettleMs: 500},
 }
 
 // ---------- timeouts (milliseconds) ----------
@@ -115,7 +124,7 @@ func c18Bounds(ph int, p c18Params, sh c18Shape) (bs int64, bsOK bool, b int64, 
 		return b
 	}
 	switch ph {
-	case c18Idle, c18WaitAck, c18Sending, c18Connecting, c18Recovery, c18RetryWait:
+	case c18Idle, c18WaitAck, c18Sending, c18Connecting, c18Recovery, c18RetryWait, c18HandOver:
 		cl, clOK = 0, true
 	case c18SendingLate:
 		cl, clOK = p.TSend, true
@@ -383,6 +392,9 @@ type c18Result struct {
 func c18RunScenario(seed uint64, idx int) (*c18Scenario, c18Params, *c18Result) {
 	sc := c18Scenarios[idx%len(c18Scenarios)]
 	p := c18DefaultParams()
+	if sc.TAckMs > 0 {
+		p.TAck = int64(sc.TAckMs)
+	}
 	res := &c18Result{}
 	fail := func(sig, format string, a ...interface{}) {
 		res.Fails = append(res.Fails, Fail{Sig: sig, Desc: sc.Name + ": " + fmt.Sprintf(format, a...)})
@@ -408,6 +420,10 @@ func c18RunScenario(seed uint64, idx int) (*c18Scenario, c18Params, *c18Result) 
 	if sc.ManyChunks {
 		ep.ChunkMaxRecords = 2
 		ep.MemLen = 4
+	}
+	if sc.AckWindow > 0 {
+		ep.AckPending = sc.AckWindow
+		ep.MemLen = 8
 	}
 	if sc.Up == upResetThenNotReading {
 		ep.RetryMs = 200 // the retry wait is not what this scenario is about: get to the second connection quickly
@@ -723,7 +739,7 @@ func c18Gen(g *Gen) {
 		pick := func() int64 { return vals[r.Intn(len(vals))] }
 		p := c18Params{pick(), pick(), pick(), pick(), pick(), pick(), pick(), pick()}
 		sh := c18Shape{int64(r.Intn(4)), int64(r.Intn(5)), int64(r.Intn(4)), int64(r.Intn(3)), int64(r.Intn(6)), int64(r.Intn(9)), r.Bool(), r.Bool(), r.Bool()}
-		ph := r.Intn(9)
+		ph := r.Intn(10)
 		sc := &c18Scenario{Phase: ph}
 		z := c18Z(0, i, sc, p, sh)
 		z[0] = -1
